@@ -217,6 +217,28 @@ func (c *Conn) WalOpen() syscall.Errno {
 	return 0
 }
 
+// Die is the death of the process that owns the connection: no unlock calls, the
+// kernel closes the descriptors in ascending order - the database file was
+// opened first, then the log, then the shm file - and every close drops the
+// locks its owner held on that file. The shared mapping stays in the page cache.
+func (c *Conn) Die() {
+	c.r.Count("pager.process-death")
+	if c.dbf != nil {
+		c.dbf.Close()
+		c.dbf = nil
+	}
+	if c.jf != nil {
+		c.jf.Close()
+		c.jf = nil
+	}
+	if c.wal != nil {
+		c.wal.walf.Close()
+		c.wal.shmf.Close()
+		c.wal = nil
+	}
+	c.lock = 0
+}
+
 func (c *Conn) walAbort() {
 	if c.wal == nil {
 		return
@@ -557,6 +579,10 @@ type WalTxProgram struct {
 	Outcome  string   // commit / rollback (frames written, no commit mark) / lockonly
 	SplitHdr bool     // write the frame header in two pieces
 	NoFsync  bool
+	// DieBeforeUnlock: the process is killed after it has published the commit in
+	// the wal-index and before it releases the write lock; the kernel closes its
+	// descriptors in the order they were opened (database, log, shm).
+	DieBeforeUnlock bool
 }
 
 // walRestartHdr is walRestartHdr(): bump salt1, new salt2, empty log.
@@ -829,6 +855,17 @@ func (c *Conn) WalWriteTx(prog WalTxProgram, ref *Image) TxResult {
 		return fail("shm-publish", e)
 	}
 	w.idxValid = false
+	if prog.DieBeforeUnlock {
+		salt := w.hdr.salt
+		c.Die()
+		if c.OnCommitPoint != nil {
+			c.OnCommitPoint()
+		}
+		if c.OnFinalized != nil {
+			c.OnFinalized()
+		}
+		return TxResult{Outcome: OutCommit, After: newIm, WalFirstFrame: firstFrame, WalFrames: len(frames), WalSalt: salt}
+	}
 	// COMMIT returns after the write lock is released.
 	if e := c.WalEndWrite(); e != 0 {
 		c.WalEndRead()
